@@ -1,12 +1,110 @@
 /- Driver operations of property C19 (ops are named "c19.<name>"). Core + Lean.Data.Json only. -/
 import Reamber.Util.Json
+import Reamber.Model.Analysis
+import Reamber.Spec.Analysis
 
 open Lean Reamber.J
 
 namespace Reamber.C19
 
-def handle (op : String) (_j : Json) : Except String Json :=
+open Reamber.Analysis
+
+def pairOf? (j : Json) : Except String (Rat × Rat) :=
+  match j with
+  | Json.arr #[a, b] => do .ok (← ratOf? a, ← ratOf? b)
+  | _ => .error s!"pair expected: {j}"
+
+def tpOf? (j : Json) : Except String Tp := do let p ← pairOf? j; .ok ⟨p.1, p.2⟩
+def svOf? (j : Json) : Except String Sv := do let p ← pairOf? j; .ok ⟨p.1, p.2⟩
+
+def rowOf? (j : Json) : Except String (Rat × Option Rat) :=
+  match j with
+  | Json.arr #[a, b] => do .ok (← ratOf? a, ← optOf? ratOf? b)
+  | _ => .error s!"row expected: {j}"
+
+def pairToJson (p : Rat × Rat) : Json := Json.arr #[ratToJson p.1, ratToJson p.2]
+def rowToJson (p : Rat × Option Rat) : Json := Json.arr #[ratToJson p.1, optToJson ratToJson p.2]
+
+def optRes {α} (f : α → Json) : Option α → Json
+  | some v => okJson (f v)
+  | none => errJson "value"
+
+def rabs (x : Rat) : Rat := if x < 0 then -x else x
+
+/-- element of `l` nearest to `x` -/
+def nearest (x : Rat) : List Rat → Option Rat
+  | [] => none
+  | a :: t => match nearest x t with
+    | none => some a
+    | some b => if rabs (a - x) ≤ rabs (b - x) then some a else some b
+
+def handle (op : String) (j : Json) : Except String Json := do
   match op with
+  | "c19.dominant" =>
+    let bpms ← getArr tpOf? j "bpms"
+    let last ← getRat j "last"
+    .ok (optRes ratToJson (dominantBpm bpms last))
+  | "c19.dominant_spec" =>
+    let bpms ← getArr tpOf? j "bpms"
+    let last ← getRat j "last"
+    let keys := groupKeys (bpms.map (·.bpm))
+    .ok (okJson (obj [("totals", listToJson pairToJson (keys.map fun k => (k, totalTime bpms last k))),
+                      ("set", listToJson ratToJson (dominantSet bpms last))]))
+  | "c19.is_dominant" =>
+    let bpms ← getArr tpOf? j "bpms"
+    let last ← getRat j "last"
+    let v ← getRat j "v"
+    .ok (okJson (Json.bool (isDominantB bpms last v)))
+  | "c19.refs" =>
+    let bpms ← getArr tpOf? j "bpms"
+    let last ← getRat j "last"
+    let ov ← getOptRat j "override"
+    .ok (okJson (listToJson ratToJson (refSet bpms last ov)))
+  | "c19.sv_normalize" =>
+    let bpms ← getArr tpOf? j "bpms"
+    let last ← getRat j "last"
+    let ov ← getOptRat j "override"
+    .ok (optRes (listToJson (fun s : Sv => pairToJson (s.time, s.mult))) (svNormalize bpms last ov))
+  | "c19.sv_norm_check" =>
+    -- residuals of the relation `SvNormOk` on implementation output, per tempo point: mult·bpm − ref
+    let bpms ← getArr tpOf? j "bpms"
+    let ref ← getRat j "ref"
+    let out ← getArr svOf? j "out"
+    .ok (okJson (obj [("exact", Json.bool (svNormOkB bpms ref out)),
+                      ("length_ok", Json.bool (out.length = bpms.length)),
+                      ("times_ok", Json.bool ((bpms.zip out).all fun x => decide (x.2.time = x.1.time))),
+                      ("products", listToJson ratToJson ((bpms.zip out).map fun x => x.2.mult * x.1.bpm))]))
+  | "c19.scroll_speed" =>
+    let hasSv ← getBool j "has_sv"
+    let bpms ← getArr tpOf? j "bpms"
+    let svs ← getArr svOf? j "svs"
+    let omin ← getRat j "omin"
+    let omax ← getRat j "omax"
+    let ov ← getOptRat j "override"
+    .ok (optRes (listToJson rowToJson) (scrollSpeed hasSv bpms svs omin omax ov))
+  | "c19.speed_check" =>
+    let hasSv ← getBool j "has_sv"
+    let bpms ← getArr tpOf? j "bpms"
+    let svs ← getArr svOf? j "svs"
+    let omin ← getRat j "omin"
+    let omax ← getRat j "omax"
+    let ref ← getRat j "ref"
+    let out ← getArr rowOf? j "out"
+    .ok (okJson (obj [
+      ("exact", Json.bool (speedOkB hasSv bpms svs omin omax ref out)),
+      ("breakpoints_ok", Json.bool (decide (groupKeys (out.map (·.1)) = breakpoints hasSv bpms svs omin omax))),
+      ("breakpoints", listToJson ratToJson (breakpoints hasSv bpms svs omin omax)),
+      ("rows", listToJson (fun r : Rat × Option Rat =>
+          let silent := (activeTps bpms r.1).isEmpty
+          let al := allowedSpeeds hasSv bpms svs ref r.1
+          obj [("silent", Json.bool silent),
+               ("nearest", match r.2 with | some s => optToJson ratToJson (nearest s al) | none => Json.null),
+               ("n_allowed", natToJson al.length)]) out)]))
+  | "c19.dom" =>
+    let bpms ← getArr tpOf? j "bpms"
+    let omax ← getRat j "omax"
+    .ok (okJson (obj [("tempo_ok", Json.bool (tempoOkB bpms)), ("last_ok", Json.bool (lastOkB bpms omax)),
+                      ("tie_at_max", Json.bool (tieAtMaxB bpms omax))]))
   | _ => .error s!"unknown op {op}"
 
 end Reamber.C19
